@@ -43,6 +43,11 @@ def cases(tier, seed):
     # flip patterns of weight <= t at structured positions
     for mu, delta in ((5, 3), (5, 7), (6, 3), (6, 5), (7, 3), (8, 3), (8, 5)):
         yield f"C09|long-bch|mu={mu},delta={delta}", {"longbch": (mu, delta), "tier": tier}
+    # pi/4-QPSK (alternating constellations, symbol-aligned: needs no reference symbol) in the pipeline: several transmissions through the SAME
+    # modem objects, in eval and in the default training mode (where the rotation phase is carried from one call to the next), frames of an even
+    # and of an odd number of symbols
+    for pr in ("rm13+reed", "rm13+softrm", "tree+bp", "tree+minsum", "polar8_4+sc", "polar16_8+sc", "hamming74+bruteforce", "rep5+bruteforce"):
+        yield f"C09|{pr}|pi4qpsk,alternating", {"alt": pr, "tier": tier}
     # links whose codes share class and (n, k) built one after the other in ONE process (decoder state shared between instances)
     bpsk = ("bpsk", "complex=1", {"complex_output": True})
     yield "C09|mixing|hamming-left-right", {"pairs": ["hamming74+syndrome", "hamming-r+syndrome", "hamming74+bruteforce", "hamming-r+syndrome", "hamming74+syndrome"], "spec": bpsk, "tier": tier}
@@ -50,7 +55,7 @@ def cases(tier, seed):
 
 
 def component_of(p):
-    return "long-bch" if "longbch" in p else p.get("pair", "mixing")
+    return "long-bch" if "longbch" in p else p.get("alt") or p.get("pair", "mixing")
 
 
 def build_pair(pr):
@@ -83,12 +88,70 @@ def build_pair(pr):
 def execute(p, res):
     if "longbch" in p:
         return long_bch_case(p, res)
+    if "alt" in p:
+        return alternating_case(p, res)
     if "pairs" in p:
         for pr in p["pairs"]:
             run_pair({"pair": pr, "spec": p["spec"], "tier": p["tier"]}, res)
     else:
         run_pair(p, res)
 
+
+
+def alternating_case(p, res):
+    import torch
+    from kaira.channels import LambdaChannel, PerfectChannel
+    from kaira.constraints import IdentityConstraint
+    from kaira.models.channel_code import ChannelCodeModel
+    pr = p["alt"]
+    enc, dec, soft, t = build_pair(pr)
+    n, k = int(enc.code_length), int(enc.code_dimension)
+    blocks = 1 if n % 2 == 0 else 2                      # odd block lengths: two blocks per row (an odd number of symbols when n = 1, 3 mod 4)
+    allm = [list(m) for m in product([0, 1], repeat=k)]
+    if blocks == 2:
+        allm = [a + b_ for a, b_ in zip(allm, allm[1:] + allm[:1])] + [a + a for a in allm[:4]]
+    msgs = torch.tensor(allm, dtype=torch.float32)
+    kw = {"noise_var": 0.5} if soft else {}
+    for spec in [s_ for s_ in MC.schemes(p["tier"], with_registry=False) if s_[0] == "pi4qpsk"]:
+        scheme, cfgs, prm = spec
+        for mode in ("eval", "train"):
+            mod, dem = MC.build(spec)
+            if mode == "train":
+                mod.train()
+                dem.train()
+            pts, _ = MC.table(mod)
+            dmin = MC.dmin(pts)
+            chans = [("perfect", PerfectChannel())] + [(f"displace-all,dir{di}", LambdaChannel(lambda s_, *a, dv=cmath.exp(1j * math.pi * di / 4) * 0.49 * dmin, **k2: s_ + dv)) for di in (0, 3, 5, 6)]
+            model = ChannelCodeModel(enc, IdentityConstraint(), mod, PerfectChannel(), dem, dec)
+            tx = 0
+            for rep in range(3):
+                for chname, channel in chans:
+                    for x in (msgs, msgs[1:2], msgs[-3:]):
+                        tx += 1
+                        cfg = f"pi4qpsk,{cfgs},{mode},{chname}"
+                        try:
+                            m_ = ChannelCodeModel(enc, IdentityConstraint(), mod, channel, dem, dec) if (rep or chname != "perfect") else model
+                            out = m_(x, **kw)
+                        except Exception as e:  # noqa: BLE001
+                            if blocks == 2:
+                                res.rejected += 1          # a decoder may decline rows of several blocks
+                                break
+                            res.viol(pr, cfg, "raises", f"transmission {tx} through the same modem objects: {type(e).__name__}: {str(e)[:200]}")
+                            break
+                        res.ev(x.shape[0], nontrivial=x.shape[0], transitions=1)
+                        if tuple(out.shape) != tuple(x.shape) or not torch.equal(out.to(torch.float32), x):
+                            i = 0 if tuple(out.shape) != tuple(x.shape) else int((out.to(torch.float32) != x).any(dim=1).nonzero()[0])
+                            res.viol(pr, cfg, "ideal" if chname == "perfect" else "<dmin/2", f"transmission {tx} through the same modem objects ({n * blocks // 2} symbols per row, no reset in between): message {x[i].tolist()} -> "
+                                     f"{out[i].tolist() if out.dim() == 2 and i < out.shape[0] else tuple(out.shape)}", {"channel": chname, "tx": tx})
+                            break
+                    else:
+                        continue
+                    break
+                else:
+                    continue
+                break
+    res.outcome((pr, "pi4qpsk"))
+    res.sample({"pair": pr, "n": n, "k": k, "blocks_per_row": blocks})
 
 
 def long_bch_case(p, res):
